@@ -428,6 +428,21 @@ func (in *instr) exprs(n ast.Node) ast.Node {
 					}
 				}
 			}
+		case *ast.UnaryExpr:
+			// &http.Transport{...} -> zzsimhook.HTTPTransport(&http.Transport{...}): transports fabio builds
+			// without a dialer of their own reach the simulated network
+			if x.Op == token.AND {
+				if cl, ok := x.X.(*ast.CompositeLit); ok {
+					if _, _, isTr := namedIn(in.typeOf(cl), "net/http", "Transport"); isTr {
+						for i, e := range cl.Elts {
+							cl.Elts[i] = in.exprs(e).(ast.Expr)
+						}
+						c.Replace(hook("HTTPTransport", x))
+						in.used = true
+						return false
+					}
+				}
+			}
 		case *ast.SelectorExpr:
 			if path, name, ok := in.pkgFunc(x); ok {
 				if path == "google.golang.org/grpc" && name == "DialContext" && in.p.PkgPath == modPath+"/proxy" {
